@@ -18,7 +18,7 @@ import (
 // The lines are validated by TLC against spec/Trace_Core.tla.
 // ---------------------------------------------------------------------------
 
-const unrepresentable = 987654321 // a real value that is not (integer x scale): never equals a model value
+const unrepresentable = 7654321 // a real value that is not (integer x scale): never equals a model value
 
 type drvLayout struct {
 	arch []MArch
@@ -35,6 +35,7 @@ var drvLayouts = []drvLayout{
 	{[]MArch{{5, 400}, {20, 350}, {100, 100}}},           // page-straddling in every archive
 	{[]MArch{{1, 1}}},                                    // ring of one slot
 	{[]MArch{{3, 5}, {15, 2}}},                           // ratio = finer count (5)
+	{[]MArch{{1, 6}, {4, 2}, {8, 4}}},                    // coarser retention < finer retention + coarser step
 }
 
 var drvMethods = []string{"average", "sum", "last", "max", "min", "first"}
@@ -225,6 +226,9 @@ func (d *coreDriver) oneTrace(id int) error {
 
 	real := func(t int64) wt.Timestamp { return wt.Timestamp(m.B + t) }
 	val := func() []int64 {
+		if (d.prop == "C01" || d.prop == "C05" || d.prop == "ALL") && rnd.Intn(15) == 0 {
+			return []int64{} // a NaN value: stored as (interval, NaN), which is not an empty slot
+		}
 		x := (rnd.Int63n(41) - 20) * unit
 		return []int64{x}
 	}
@@ -253,7 +257,7 @@ func (d *coreDriver) oneTrace(id int) error {
 			a := lay[rnd.Intn(k)]
 			ret = a.Step * a.N
 		}
-		edge := d.prop == "C03" || d.prop == "ALL"
+		edge := d.prop == "C03" || d.prop == "C05" || d.prop == "ALL"
 		switch r := rnd.Intn(10); {
 		case r == 0 && edge:
 			return now - ret + int64(rnd.Intn(3)) - 1 // retention-1, retention, retention+1
@@ -290,6 +294,15 @@ func (d *coreDriver) oneTrace(id int) error {
 		case r < 30: // single update
 			sel := selFor()
 			p := MPoint{T: ptTime(sel), V: val()}
+			if (d.prop == "C05" || d.prop == "C03" || d.prop == "ALL") && rnd.Intn(6) == 0 {
+				// an update the library must reject (dated ahead of the clock, or older than the maximum retention)
+				sel = 0
+				if rnd.Intn(2) == 0 {
+					p.T = now + 1 + rnd.Int63n(100)
+				} else {
+					p.T = now - maxRet - rnd.Int63n(50)
+				}
+			}
 			if sel != 0 && !(p.T > now-lay[sel-1].Step*lay[sel-1].N) {
 				continue // a named archive too short for the point's age: unspecified
 			}
